@@ -52,6 +52,10 @@ fn gen_preempt(g: &mut Rng, _tier: Tier) -> J {
 
 #[derive(Clone, Debug, Default)]
 struct CoRec {
+    /// thread on which the body started
+    started_on: String,
+    /// (parked at, by which thread's scheduler, resumed at)
+    parks: Vec<(u64, String, Option<u64>)>,
     kind: String,
     started: Option<u64>,
     finished: Option<u64>,
@@ -70,11 +74,22 @@ struct Watch {
 
 impl Listener<(), Option<usize>> for Watch {
     fn on_state_changed(&self, local: &CoroutineLocal, old: SchedulableCoroutineState, new: SchedulableCoroutineState) {
+        if std::env::var("VSIM_TRACE_TAG").is_ok() && local.get::<usize>("tag").is_none() {
+            eprintln!("[untagged] +{}us {:?}: {old:?} -> {new:?}", (now() % 1_000_000_000_000) / 1000, std::thread::current().id());
+        }
         let Some(idx) = local.get::<usize>("tag").copied() else { return };
         if std::env::var("VSIM_TRACE_TAG").is_ok() {
             eprintln!("[tag {idx}] +{}us {:?}: {old:?} -> {new:?}", (now() % 1_000_000_000_000) / 1000, std::thread::current().id());
         }
         let mut r = self.recs.lock().unwrap_or_else(|e| e.into_inner());
+        let me = format!("{:?}", std::thread::current().id());
+        if let CoroutineState::Suspend((), _) = new {
+            r[idx].parks.push((now(), me, None));
+        } else if let (CoroutineState::Suspend((), _), CoroutineState::Running) = (old, new) {
+            if let Some(p) = r[idx].parks.last_mut() {
+                p.2 = Some(now());
+            }
+        }
         if let (CoroutineState::Running, CoroutineState::Suspend((), _)) = (old, new) {
             r[idx].suspended_while_running += 1;
             if r[idx].first_preempt.is_none() {
@@ -128,7 +143,11 @@ fn body_preempt(plan: &J) {
                     if let Some(co) = SchedulableCoroutine::current() {
                         _ = co.put("tag", bi);
                     }
-                    rc.lock().unwrap_or_else(|e| e.into_inner())[bi].started = Some(now());
+                    {
+                        let mut g = rc.lock().unwrap_or_else(|e| e.into_inner());
+                        g[bi].started = Some(now());
+                        g[bi].started_on = format!("{:?}", std::thread::current().id());
+                    }
                     let mut acc = 0usize;
                     for k in 0..busy_ms {
                         sim::cpu_work(1_000_000, 100_000);
@@ -154,8 +173,17 @@ fn body_preempt(plan: &J) {
                     move |_: &SchedulableSuspender<'_>, ()| {
                         if let Some(co) = SchedulableCoroutine::current() {
                             _ = co.put("tag", b2);
+                            if std::env::var("VSIM_TRACE_TAG").is_ok() {
+                                eprintln!("[busy2 tag {b2}] current = {} state {:?} on {:?}", co.name(), co.state(), std::thread::current().id());
+                            }
+                        } else if std::env::var("VSIM_TRACE_TAG").is_ok() {
+                            eprintln!("[busy2 tag {b2}] NO current coroutine on {:?}", std::thread::current().id());
                         }
-                        rc.lock().unwrap_or_else(|e| e.into_inner())[b2].started = Some(now());
+                        {
+                            let mut g = rc.lock().unwrap_or_else(|e| e.into_inner());
+                            g[b2].started = Some(now());
+                            g[b2].started_on = format!("{:?}", std::thread::current().id());
+                        }
                         let mut acc = 0usize;
                         for k in 0..busy2_ms {
                             sim::cpu_work(1_000_000, 100_000);
@@ -225,7 +253,10 @@ fn body_preempt(plan: &J) {
             let t0 = now();
             loop {
                 match sched.try_timed_schedule(Duration::from_millis(10)) {
-                    Err(_) => fail("schedule-error", format!("scheduling thread {ti}: try_timed_schedule failed")),
+                    Err(e) => {
+                        let unfinished: Vec<String> = recs.lock().unwrap_or_else(|e| e.into_inner()).iter().enumerate().filter(|(_, c)| c.finished.is_none()).map(|(i, c)| format!("{i}:{}", c.kind)).collect();
+                        fail("schedule-error", format!("scheduling thread {ti}: try_timed_schedule failed at +{} us: {e}; unfinished coroutines: {unfinished:?}", (now() % 1_000_000_000_000) / 1000))
+                    }
                     // nothing left to run before the slice was over: idle briefly like an event loop does,
                     // instead of spinning through millions of scheduling points
                     Ok((left, _)) if left > 0 => vstd::thread::sleep(Duration::from_micros(500)),
@@ -297,13 +328,20 @@ fn body_preempt(plan: &J) {
             if t.gu("busy_ms") >= 40 && t.gu("busy2_ms") >= 40 && !t.gb("yielding") {
                 for (me, other) in [(b1, b2), (b2, b1)] {
                     let (Some(st), Some(fin)) = (me.started, me.finished) else { continue };
-                    // the other one existed and had not finished when this one started: it was waiting
-                    let other_waiting = other.finished.is_none_or(|f| f > st + 20_000_000);
+                    // the other one was parked (preempted, ready again) by this very thread's scheduler for
+                    // the first 20 ms of this one's run: it was waiting here, not running elsewhere after
+                    // being stolen
+                    let other_waiting = !me.started_on.is_empty()
+                        
+                        && other.parks.iter().any(|(at, by, resumed)| *at <= st && by == &me.started_on && resumed.is_none_or(|t| t >= st + 20_000_000));
                     if other_waiting && fin - st >= 35_000_000 {
                         match me.first_preempt {
                             Some(p) if p <= st + 20_000_000 => probe("pre.preempted-both"),
                             Some(p) => fail("preempt-late", format!("thread {ti}: the {} computation was first suspended {} us after it started while another long computation was waiting on the same thread (slice 10 ms)", me.kind, (p - st) / 1000)),
-                            None => fail("not-preempted", format!("thread {ti}: the {} computation ({} ms without yields) was never suspended although another long computation was waiting on the same thread", me.kind, (fin - st) / 1_000_000)),
+                            None => {
+                                let tl: Vec<String> = mine.iter().map(|i| &r[*i]).map(|c| format!("{} start {:?} first-suspend {:?} end {:?}", c.kind, c.started.map(|x| (x % 1_000_000_000_000) / 1000), c.first_preempt.map(|x| (x % 1_000_000_000_000) / 1000), c.finished.map(|x| (x % 1_000_000_000_000) / 1000))).collect();
+                                fail("not-preempted", format!("thread {ti}: the {} computation ({} ms without yields) was never suspended although another long computation was waiting on the same thread; timeline (us): {tl:?}", me.kind, (fin - st) / 1_000_000))
+                            }
                         }
                     }
                 }
